@@ -194,6 +194,9 @@ func raceSummary() string {
 			inAccess = true
 		case strings.HasPrefix(line, "Goroutine ") || line == "":
 			inAccess = false
+		case inAccess && strings.Contains(line, "verifrt.markReleasedHelper") && cur != "":
+			accesses = append(accesses, "hand-back of the object to its pool (any later access by the previous owner is a use after release)")
+			cur = ""
 		case inAccess:
 			if m := reRaceFrame.FindStringSubmatch(line); m != nil && strings.HasPrefix(m[1], "/repo/") && !strings.Contains(m[1], "/verifrt/") && cur != "" {
 				accesses = append(accesses, strings.ToLower(cur)+" "+strings.TrimPrefix(m[1], "/repo/")+":"+m[2])
